@@ -304,6 +304,9 @@ func genBlockCase(rt *rapid.T, o genOpts) BlockCase {
 	for _, kv := range c.Parent {
 		o.parentVals[string(kv.K)] = kv.V
 	}
+	if rapid.IntRange(0, 2).Draw(rt, "parentFeeState") == 0 {
+		c.ParentFee = genParentFee(rt, c)
+	}
 	n := rapid.IntRange(0, o.maxTxs).Draw(rt, "ntxs")
 	for i := 0; i < n; i++ {
 		c.Txs = append(c.Txs, genTx(rt, i, c.Rules, c.Time, o))
@@ -508,4 +511,37 @@ func spliceTemplates(rt *rapid.T, c BlockCase, o genOpts) []fixture.TxSpec {
 		pos++
 	}
 	return out
+}
+
+// genParentFee builds a parent fee state that is not "everything zero": unit prices off the
+// minimum, a 10-slot usage window around / above the default targets, zero or non-zero last
+// consumption, last update in the parent's second (layout as documented in internal/fees/manager.go:
+// 8-byte second, then per dimension 8-byte price, 10 x 8-byte window, 8-byte last consumed).
+func genParentFee(rt *rapid.T, c BlockCase) []byte {
+	raw := make([]byte, 8+5*(8+80+8))
+	binary.BigEndian.PutUint64(raw[0:8], uint64(c.PTime/1000))
+	targets := [5]uint64{20_000_000, 1_000, 1_000, 1_000, 1_000}
+	for d := 0; d < 5; d++ {
+		off := 8 + d*96
+		price := c.Rules.MinPrice[d] + rapid.SampledFrom([]uint64{0, 1, 50, 1000}).Draw(rt, fmt.Sprintf("pf.price%d", d))
+		binary.BigEndian.PutUint64(raw[off:off+8], price)
+		mode := rapid.IntRange(0, 2).Draw(rt, fmt.Sprintf("pf.win%d", d))
+		for s := 0; s < 10; s++ {
+			var v uint64
+			switch mode {
+			case 1: // around the target in total
+				v = targets[d] / 10
+			case 2: // well above the target
+				v = targets[d] / 3
+			}
+			if mode != 0 && rapid.IntRange(0, 3).Draw(rt, fmt.Sprintf("pf.slot%d.%d", d, s)) == 0 {
+				v = 0
+			}
+			binary.BigEndian.PutUint64(raw[off+8+8*s:off+16+8*s], v)
+		}
+		if rapid.Bool().Draw(rt, fmt.Sprintf("pf.consumed%d", d)) {
+			binary.BigEndian.PutUint64(raw[off+88:off+96], rapid.SampledFrom([]uint64{1, 40, 500}).Draw(rt, fmt.Sprintf("pf.last%d", d)))
+		}
+	}
+	return raw
 }
